@@ -43,6 +43,8 @@ var CRLBehaviours = []string{
 	// lists that are not acceptable AND list the certificate with an invalidity
 	// date that would excuse it: nothing about an unacceptable list counts
 	"expired-lists-inv-after", "wrong-signer-lists-inv-after", "delta-expired-lists-inv-after",
+	// number / indicator comparisons across octet lengths (255 vs 256, 65535 vs 65536)
+	"delta-ind-gt-longer", "delta-num-lt-shorter", "delta-ind-lt-shorter-ok", "delta-ind-gt-much-longer",
 	"delta-no-number", "base-no-number-delta",
 	"fetch-fail",
 }
@@ -53,7 +55,7 @@ var CRLHTTPOnly = []string{"http-404", "http-500", "garbage", "empty", "truncate
 // CRLClass gives the reference class of a behaviour.
 func CRLClass(beh string) string {
 	switch beh {
-	case "clean", "clean-idp", "clean-noncrit-ext", "lists-removed", "delta-ok", "delta-removes", "delta-ind-lt", "delta-ind-eq", "delta-older-ok":
+	case "clean", "clean-idp", "clean-noncrit-ext", "lists-removed", "delta-ok", "delta-removes", "delta-ind-lt", "delta-ind-eq", "delta-older-ok", "delta-ind-lt-shorter-ok":
 		return CRLOK
 	case "lists", "lists-hold", "delta-lists":
 		return CRLRevoked
@@ -265,6 +267,18 @@ func (k *Kit) buildCRL(beh string, slot int) *CRLSet {
 		delta.DeltaInd = big.NewInt(101)
 	case "delta-no-ind":
 		delta.DeltaInd = nil
+	case "delta-ind-gt-longer":
+		// indicator 256 (two octets, leading 0x01) above base number 255 (one octet 0xff)
+		base.Number, delta.DeltaInd, delta.Number = big.NewInt(255), big.NewInt(256), big.NewInt(300)
+	case "delta-ind-gt-much-longer":
+		base.Number, delta.DeltaInd = big.NewInt(20240720), new(big.Int).Lsh(big.NewInt(1), 40)
+		delta.Number = new(big.Int).Lsh(big.NewInt(1), 41)
+	case "delta-num-lt-shorter":
+		// delta number 255 (0xff) below base number 256 (0x0100)
+		base.Number, delta.DeltaInd, delta.Number = big.NewInt(256), big.NewInt(200), big.NewInt(255)
+	case "delta-ind-lt-shorter-ok":
+		// indicator 255 below base number 256, delta number 65536: in order
+		base.Number, delta.DeltaInd, delta.Number = big.NewInt(256), big.NewInt(255), big.NewInt(65536)
 	case "delta-wrong-signer":
 		delta.SignKey = unrelated
 	case "delta-older-ok", "delta-older-wrong-signer", "delta-older-expired", "delta-older-forged-remove":
